@@ -163,7 +163,9 @@ func (s *LinearState) Add(ctx *Context, id string, x Map) (string, error) {
 		return id, err
 	}
 
-	bs, err := json.Marshal(&x)
+	// Persist the prepared fact (absolute 'expires', no 'ttl'), not
+	// the caller's map: Load does not prepare facts again.
+	bs, err := json.Marshal(&m)
 	if err != nil {
 		return id, err
 	}
